@@ -196,4 +196,19 @@ Section Model.
     let k := length modes in
     let mm := read_vec (st_m s) modes in
     mkState (assign_vec d (st_m s) modes (mkv k (fun a => getv mm a + alpha))) (st_C s) (st_G s).
+
+  (* a program of the three simulation steps; GatesModel.step dispatches every instruction of the
+     Gaussian simulator to one of them *)
+  Inductive lop :=
+  | LPassive (T : mat) (modes : list nat)          (* passive_linear *)
+  | LLinear (P Am : mat) (modes : list nat)        (* linear *)
+  | LDisp (alpha : A) (modes : list nat).          (* displacement *)
+  Definition lstep (d : nat) (o : lop) (s : gstate) : gstate :=
+    match o with
+    | LPassive T modes => apply_passive d T modes s
+    | LLinear P Am modes => apply_linear d P Am modes s
+    | LDisp alpha modes => apply_displacement d alpha modes s
+    end.
+  Definition lrun (d : nat) (prog : list lop) (s : gstate) : gstate :=
+    fold_left (fun s o => lstep d o s) prog s.
 End Model.
